@@ -6,18 +6,7 @@
 // (`stub_verified`), and each harness repeats its postcondition as a plain assert so that a
 // counterexample replays natively.
 
-/// "within f32::EPSILON of c" for c in {-1, 0, 1}, as two comparisons. 1 - EPSILON and
-/// 1 + EPSILON are exactly representable, and by Sterbenz' lemma `a - 1.0` is exact for
-/// a in [0.5, 2], so this is the same set of floats as `(a - c).abs() <= EPSILON`
-/// (NaN is in neither). Writing the spec without float arithmetic keeps the callers'
-/// obligations purely relational; the real arithmetic is confronted with it in U6.approx.
-pub(super) fn near(a: f32, c: i8) -> bool {
-    match c {
-        0 => a >= -f32::EPSILON && a <= f32::EPSILON,
-        1 => a >= 1.0 - f32::EPSILON && a <= 1.0 + f32::EPSILON,
-        _ => a >= -1.0 - f32::EPSILON && a <= -1.0 + f32::EPSILON,
-    }
-}
+//@include shared/rotid_contract.rs.inc
 
 pub(super) fn post_approx(value: f32, r: Option<i32>) -> bool {
     match r {
@@ -53,75 +42,6 @@ pub(super) fn post_normal(v: &Vector3, r: Option<u8>) -> bool {
         None => {
             !(near_basis(v, 0) || near_basis(v, 1) || near_basis(v, 2)
                 || near_basis(v, 3) || near_basis(v, 4) || near_basis(v, 5))
-        }
-    }
-}
-
-// Generated by contracts/tools/rotation_table.py from the Euler-angle table of
-// docs/binary.md (R = Ry * Rx * Rz); rows are R0*, R1*, R2*.
-pub(super) fn spec_rotation(id: u8) -> Option<[[i8; 3]; 3]> {
-    Some(match id {
-        0x02 => [[1, 0, 0], [0, 1, 0], [0, 0, 1]],
-        0x03 => [[1, 0, 0], [0, 0, -1], [0, 1, 0]],
-        0x05 => [[1, 0, 0], [0, -1, 0], [0, 0, -1]],
-        0x06 => [[1, 0, 0], [0, 0, 1], [0, -1, 0]],
-        0x07 => [[0, 1, 0], [1, 0, 0], [0, 0, -1]],
-        0x09 => [[0, 0, 1], [1, 0, 0], [0, 1, 0]],
-        0x0a => [[0, -1, 0], [1, 0, 0], [0, 0, 1]],
-        0x0c => [[0, 0, -1], [1, 0, 0], [0, -1, 0]],
-        0x0d => [[0, 1, 0], [0, 0, 1], [1, 0, 0]],
-        0x0e => [[0, 0, -1], [0, 1, 0], [1, 0, 0]],
-        0x10 => [[0, -1, 0], [0, 0, -1], [1, 0, 0]],
-        0x11 => [[0, 0, 1], [0, -1, 0], [1, 0, 0]],
-        0x14 => [[-1, 0, 0], [0, 1, 0], [0, 0, -1]],
-        0x15 => [[-1, 0, 0], [0, 0, 1], [0, 1, 0]],
-        0x17 => [[-1, 0, 0], [0, -1, 0], [0, 0, 1]],
-        0x18 => [[-1, 0, 0], [0, 0, -1], [0, -1, 0]],
-        0x19 => [[0, 1, 0], [-1, 0, 0], [0, 0, 1]],
-        0x1b => [[0, 0, -1], [-1, 0, 0], [0, 1, 0]],
-        0x1c => [[0, -1, 0], [-1, 0, 0], [0, 0, -1]],
-        0x1e => [[0, 0, 1], [-1, 0, 0], [0, -1, 0]],
-        0x1f => [[0, 1, 0], [0, 0, -1], [-1, 0, 0]],
-        0x20 => [[0, 0, 1], [0, 1, 0], [-1, 0, 0]],
-        0x22 => [[0, -1, 0], [0, 0, 1], [-1, 0, 0]],
-        0x23 => [[0, 0, -1], [0, -1, 0], [-1, 0, 0]],
-        _ => return None,
-    })
-}
-
-pub(super) fn near_rotation(m: &Matrix3, t: &[[i8; 3]; 3]) -> bool {
-    near(m.x.x, t[0][0]) && near(m.x.y, t[0][1]) && near(m.x.z, t[0][2])
-        && near(m.y.x, t[1][0]) && near(m.y.y, t[1][1]) && near(m.y.z, t[1][2])
-        && near(m.z.x, t[2][0]) && near(m.z.y, t[2][1]) && near(m.z.z, t[2][2])
-}
-
-pub(super) const ROTATION_IDS: [u8; 24] = [
-    0x02, 0x03, 0x05, 0x06, 0x07, 0x09, 0x0a, 0x0c, 0x0d, 0x0e, 0x10, 0x11,
-    0x14, 0x15, 0x17, 0x18, 0x19, 0x1b, 0x1c, 0x1e, 0x1f, 0x20, 0x22, 0x23,
-];
-
-pub(super) fn near_id(m: &Matrix3, id: u8) -> bool {
-    match spec_rotation(id) {
-        Some(t) => near_rotation(m, &t),
-        None => false,
-    }
-}
-
-/// Full characterisation of the snap: Some(id) iff id is one of the 24 documented ids and
-/// EVERY entry of the matrix is within epsilon of the documented rotation; None iff the
-/// matrix is within epsilon of none of them (so in particular a matrix whose third row
-/// disagrees, or a scaled or mirrored matrix, is never snapped).
-pub(super) fn post_rotid(m: &Matrix3, r: Option<u8>) -> bool {
-    match r {
-        Some(id) => near_id(m, id),
-        None => {
-            let mut i = 0;
-            let mut any = false;
-            while i < 24 {
-                any = any || near_id(m, ROTATION_IDS[i]);
-                i += 1;
-            }
-            !any
         }
     }
 }
@@ -164,7 +84,7 @@ fn u6_normal() {
 //@ kind: complete
 //@ covers: 2
 //@ checks: functional
-//@ note: all 2^288 matrices; modular: Vector3::to_normal_id replaced by its verified contract (stub_verified). Discharged as a plain proof harness asserting the spliced ensures-predicate, because proof_for_contract on this &self method exhausted 20 GB in goto-instrument's contract instrumentation (measured). unwind(26) bounds the 24-iteration loop of the predicate and the recursive drop glue of rbx_types::Error.
+//@ note: all 2^288 matrices; modular: Vector3::to_normal_id replaced by its verified contract (stub_verified). The contract of this method is the shared predicate post_rotid (contracts/shared/rotid_contract.rs.inc): it is asserted here as a plain proof harness and assumed by callers' harnesses through rotid_by_contract, because Kani's own proof_for_contract / stub_verified instrumentation of this &self method exhausted 20 GB (measured) and a spliced kani::ensures would forbid plain stubbing. unwind(26) bounds the 24-iteration loop of the predicate and the recursive drop glue of rbx_types::Error.
 #[kani::proof]
 #[kani::stub_verified(Vector3::to_normal_id)]
 #[kani::unwind(26)]
@@ -178,6 +98,28 @@ fn u6_rotid_sound() {
     assert!(post_rotid(&m, r));
     kani::cover!(r == Some(0x0a), "a snap is reachable");
     kani::cover!(r.is_none(), "no snap is reachable");
+}
+
+//@ obligation: U6.rotid.unique
+//@ props: C01 C03 C14
+//@ fns: Matrix3::to_basic_rotation_id
+//@ kind: complete
+//@ covers: 1
+//@ checks: functional
+//@ note: lemma over the contract: no matrix is within epsilon of two different documented rotations, so post_rotid determines the result of to_basic_rotation_id uniquely (used by the callers' harnesses that replace the function by its contract)
+#[kani::proof]
+fn u6_rotid_unique() {
+    let m = Matrix3::new(
+        Vector3::new(kani::any(), kani::any(), kani::any()),
+        Vector3::new(kani::any(), kani::any(), kani::any()),
+        Vector3::new(kani::any(), kani::any(), kani::any()),
+    );
+    let i: u8 = kani::any();
+    let j: u8 = kani::any();
+    if near_id(&m, i) && near_id(&m, j) {
+        assert!(i == j);
+        kani::cover!(i == 0x11, "a near matrix is reachable");
+    }
 }
 
 //@ obligation: U6.rotid.table
